@@ -29,6 +29,7 @@ const (
 	akGlobal                    // package-level variable: component G.x
 	akBytesCell                 // slice over a local byte array cell (value semantics)
 	akDyn                       // pointer to a leaf of statically unknown provenance
+	akByteAt                    // element of a byte slice modelled as a byte sequence (read only; the value read is unconstrained)
 )
 
 // Addr is a generation-time description of an address.
@@ -736,6 +737,13 @@ func (f *FnEnc) load(a *Addr) Val {
 			t = fmt.Sprintf("(ite (and (< %s 0) (= (inner.k %s) %d)) (select %s (inner.p %s)) %s)", a.PtrTerm, a.PtrTerm, f.e.reg.fidByComp[c], f.comp(c), a.PtrTerm, t)
 		}
 		return Val{t, s}
+	}
+	if a.Kind == akByteAt {
+		// byte sequences carry no element function: the byte read is any value in range (an
+		// over-approximation: a function whose contract depends on the byte read stays unproved)
+		b := f.fresh("byteat", "Int")
+		f.assume(fmt.Sprintf("(and (<= 0 %s) (<= %s 255))", b, b))
+		return Val{b, s}
 	}
 	f.fail("load: unsupported address kind %d", a.Kind)
 	return Val{"0", s}
